@@ -1,6 +1,7 @@
 import IastModel.Rewriter.Rewrite
 import IastModel.Spec.Scope
 import IastModel.Lemmas.Monad
+import IastModel.Lemmas.TempsBlock
 /-
   C06 — temporaries are hygienic.  Proved here: (1) a file that mentions the reserved prefix in any
   identifier is refused, untouched, with the documented reason, before anything is injected; (2) the
@@ -79,5 +80,27 @@ theorem getTemporalIdent_registered (operand : Node) (asg : List Node) (sp : Spa
     have := (registerIdent_once s.counter (nextIdent s).2).1
     rw [h1.1]
     exact this
+
+
+/-! ### declarations, for the whole pipeline -/
+
+/-- **C06 (no injected name is left undeclared).**  For every configuration, fuel and program that
+    contains no identifier of the reserved temporary form (such a program is refused, see
+    `refused_when_reserved`; the driver checks the hypothesis on every input), unless the rewrite is
+    refused: every temporary of the output that occurs in the own region of a block statement (nested
+    blocks excluded) is declared by an injected `let` among that block's own statements, and no
+    temporary occurs outside all block statements.  (`declOK`, `Lemmas/TempsBlock.lean`.) -/
+theorem temporaries_declared (cfg : Config) (fuel : Nat) (p : Node) (h0 : nt p = 0)
+    (hnc : (transformProgram cfg fuel p).status ≠ .cancelled) :
+    declOK [] (transformProgram cfg fuel p).out = true :=
+  temporaries_declared_master cfg fuel p h0 hnc
+
+/-- the operation visitor only ever uses temporaries it has registered for declaration: from a tree
+    that is good for the registered set, the result is good for the (larger) registered set -/
+theorem visit_uses_registered_temporaries (cfg : Config) (f : Nat) (root : Bool) (n : Node) (s : St)
+    (h : tgood s.idents n = true) :
+    tgood (visit cfg f root n s).2.idents (visit cfg f root n s).1 = true ∧
+    ∀ k ∈ s.idents, k ∈ (visit cfg f root n s).2.idents :=
+  visit_T cfg f root n s h
 
 end IastModel.C06
